@@ -212,7 +212,9 @@ impl Source {
 
     /// Get the build depends
     pub fn build_depends(&self) -> Option<Relations> {
-        self.0.get("Build-Depends").map(|s| s.parse().unwrap())
+        self.0
+            .get("Build-Depends")
+            .map(|s| Relations::parse_relaxed(&s, true).0)
     }
 
     /// Set the build depends
@@ -224,7 +226,7 @@ impl Source {
     pub fn build_depends_indep(&self) -> Option<Relations> {
         self.0
             .get("Build-Depends-Indep")
-            .map(|s| s.parse().unwrap())
+            .map(|s| Relations::parse_relaxed(&s, true).0)
     }
 
     /// Set the arch-independent build depends
@@ -234,7 +236,9 @@ impl Source {
 
     /// Get the arch-dependent build depends
     pub fn build_depends_arch(&self) -> Option<Relations> {
-        self.0.get("Build-Depends-Arch").map(|s| s.parse().unwrap())
+        self.0
+            .get("Build-Depends-Arch")
+            .map(|s| Relations::parse_relaxed(&s, true).0)
     }
 
     /// Set the arch-dependent build depends
@@ -244,7 +248,9 @@ impl Source {
 
     /// Get the build conflicts
     pub fn build_conflicts(&self) -> Option<Relations> {
-        self.0.get("Build-Conflicts").map(|s| s.parse().unwrap())
+        self.0
+            .get("Build-Conflicts")
+            .map(|s| Relations::parse_relaxed(&s, true).0)
     }
 
     /// Set the build conflicts
@@ -256,7 +262,7 @@ impl Source {
     pub fn build_conflicts_indep(&self) -> Option<Relations> {
         self.0
             .get("Build-Conflicts-Indep")
-            .map(|s| s.parse().unwrap())
+            .map(|s| Relations::parse_relaxed(&s, true).0)
     }
 
     /// Set the build conflicts indep
@@ -268,7 +274,7 @@ impl Source {
     pub fn build_conflicts_arch(&self) -> Option<Relations> {
         self.0
             .get("Build-Conflicts-Arch")
-            .map(|s| s.parse().unwrap())
+            .map(|s| Relations::parse_relaxed(&s, true).0)
     }
 
     /// Set the build conflicts arch
@@ -278,7 +284,9 @@ impl Source {
 
     /// Get the binary relations
     pub fn binary(&self) -> Option<Relations> {
-        self.0.get("Binary").map(|s| s.parse().unwrap())
+        self.0
+            .get("Binary")
+            .map(|s| Relations::parse_relaxed(&s, true).0)
     }
 
     /// Set the binary relations
@@ -533,7 +541,9 @@ impl Package {
 
     /// Get the packages that this package depends on.
     pub fn depends(&self) -> Option<Relations> {
-        self.0.get("Depends").map(|s| s.parse().unwrap())
+        self.0
+            .get("Depends")
+            .map(|s| Relations::parse_relaxed(&s, true).0)
     }
 
     /// Set the packages that this package depends on.
@@ -543,7 +553,9 @@ impl Package {
 
     /// Get the packages that this package suggests.
     pub fn recommends(&self) -> Option<Relations> {
-        self.0.get("Recommends").map(|s| s.parse().unwrap())
+        self.0
+            .get("Recommends")
+            .map(|s| Relations::parse_relaxed(&s, true).0)
     }
 
     /// Set the packages that this package recommends.
@@ -553,7 +565,9 @@ impl Package {
 
     /// Get the packages that this package suggests.
     pub fn suggests(&self) -> Option<Relations> {
-        self.0.get("Suggests").map(|s| s.parse().unwrap())
+        self.0
+            .get("Suggests")
+            .map(|s| Relations::parse_relaxed(&s, true).0)
     }
 
     /// Set the packages that this package suggests.
@@ -563,7 +577,9 @@ impl Package {
 
     /// Get the packages that this package enhances.
     pub fn enhances(&self) -> Option<Relations> {
-        self.0.get("Enhances").map(|s| s.parse().unwrap())
+        self.0
+            .get("Enhances")
+            .map(|s| Relations::parse_relaxed(&s, true).0)
     }
 
     /// Set the packages that this package enhances.
@@ -573,7 +589,9 @@ impl Package {
 
     /// Get the relations that this package pre-depends on.
     pub fn pre_depends(&self) -> Option<Relations> {
-        self.0.get("Pre-Depends").map(|s| s.parse().unwrap())
+        self.0
+            .get("Pre-Depends")
+            .map(|s| Relations::parse_relaxed(&s, true).0)
     }
 
     /// Set the relations that this package pre-depends on.
@@ -583,7 +601,9 @@ impl Package {
 
     /// Get the relations that this package breaks.
     pub fn breaks(&self) -> Option<Relations> {
-        self.0.get("Breaks").map(|s| s.parse().unwrap())
+        self.0
+            .get("Breaks")
+            .map(|s| Relations::parse_relaxed(&s, true).0)
     }
 
     /// Set the relations that this package breaks.
@@ -593,7 +613,9 @@ impl Package {
 
     /// Get the relations that this package conflicts with.
     pub fn conflicts(&self) -> Option<Relations> {
-        self.0.get("Conflicts").map(|s| s.parse().unwrap())
+        self.0
+            .get("Conflicts")
+            .map(|s| Relations::parse_relaxed(&s, true).0)
     }
 
     /// Set the relations that this package conflicts with.
@@ -603,7 +625,9 @@ impl Package {
 
     /// Get the relations that this package replaces.
     pub fn replaces(&self) -> Option<Relations> {
-        self.0.get("Replaces").map(|s| s.parse().unwrap())
+        self.0
+            .get("Replaces")
+            .map(|s| Relations::parse_relaxed(&s, true).0)
     }
 
     /// Set the relations that this package replaces.
@@ -613,7 +637,9 @@ impl Package {
 
     /// Get the relations that this package provides.
     pub fn provides(&self) -> Option<Relations> {
-        self.0.get("Provides").map(|s| s.parse().unwrap())
+        self.0
+            .get("Provides")
+            .map(|s| Relations::parse_relaxed(&s, true).0)
     }
 
     /// Set the relations that the package provides.
